@@ -4,7 +4,7 @@
   all limb counts (list lengths), all operand values and all shift amounts / bit indices.
   `BITS = 64 * a.length`, `2^BITS = B ^ a.length`.
 -/
-import CB.Lemmas.C05Shift
+import CB.Lemmas.C05Wide
 namespace CB.P05
 open CB CB.Shift CB.Bits
 
@@ -21,7 +21,7 @@ theorem shl_vartime_spec {a : List Nat} (ha : WF a) (s : Nat) :
     exact ⟨by simp [h1, h, mask], fun _ => h2, fun h' => absurd h (Nat.not_lt.mpr h'), h3, h4⟩
   · have h' := Nat.not_lt.mp h
     rw [overflowingShlVartime_overflow a h']
-    exact ⟨by simp [h, mask], fun h'' => absurd h'' h, fun _ => uzero_val _, uzero_length _, uzero_WF _⟩
+    exact ⟨by simp [h, mask], fun h'' => absurd h'' h, fun _ => val_uzero _, uzero_length _, uzero_WF _⟩
 
 /-- T05.1b `overflowing_shr_vartime`: `x / 2^s` when `s < BITS`, none (zero) otherwise. -/
 theorem shr_vartime_spec {a : List Nat} (ha : WF a) (s : Nat) :
@@ -34,12 +34,169 @@ theorem shr_vartime_spec {a : List Nat} (ha : WF a) (s : Nat) :
     exact ⟨by simp [h1, h, mask], fun _ => h2, fun h' => absurd h (Nat.not_lt.mpr h'), h3, h4⟩
   · have h' := Nat.not_lt.mp h
     rw [overflowingShrVartime_overflow a h']
-    exact ⟨by simp [h, mask], fun h'' => absurd h'' h, fun _ => uzero_val _, uzero_length _, uzero_WF _⟩
+    exact ⟨by simp [h, mask], fun h'' => absurd h'' h, fun _ => val_uzero _, uzero_length _, uzero_WF _⟩
 
 /-- non-vacuity: a 3-limb value (non-power-of-two width) shifted across a limb boundary. -/
 example : val (overflowingShlVartime [WMAX, 1, 0] 65).1 = (val [WMAX, 1, 0] * 2 ^ 65) % B ^ 3 :=
   (shl_vartime_spec (a := [WMAX, 1, 0]) (WF_of_all (by decide)) 65).2.1 (by decide)
 example : val (overflowingShrVartime [0, 1, WMAX] 65).1 = val [0, 1, WMAX] / 2 ^ 65 :=
   (shr_vartime_spec (a := [0, 1, WMAX]) (WF_of_all (by decide)) 65).2.1 (by decide)
+
+/-! ## T05.2 the constant-time ladder
+
+`Uint<LIMBS>::BITS` and the shift amount are `u32`: `64 * a.length < 2^32`, `s < 2^32` (type bounds,
+not restrictions). `a ≠ []` is `LIMBS ≥ 1`.  No power-of-two assumption on the width. -/
+
+/-- T05.2a every step `1 << i`, `i < shift_bits`, of the ladder is a legal shift, and the reduced shift
+    `s % BITS` is covered by `shift_bits` bits — for EVERY width (the top step is not `BITS/2` when
+    `BITS` is not a power of two). -/
+theorem ladder_steps_legal {bits : Nat} (hb : 0 < bits) (h : bits ≤ TWO32) :
+    (∀ j, j < shiftBits bits → 2 ^ j < bits) ∧ (∀ s, s % bits < 2 ^ shiftBits bits) :=
+  ⟨fun _ hj => step_lt_bits hb h hj, fun _ => reduced_lt hb h⟩
+
+/-- T05.2b `overflowing_shl` (ladder) = `overflowing_shl_vartime` (limb move + carry), value and
+    `is_some` mask, for every width and every shift; in particular the inner `expect` never panics. -/
+theorem shl_ladder_eq_vartime {a : List Nat} (ha : WF a) (hn0 : a ≠ []) (hn : 64 * a.length < TWO32)
+    {s : Nat} (hs : s < TWO32) :
+    overflowingShl a s = some (overflowingShlVartime a s) := overflowingShl_eq_vartime ha hn0 hn hs
+
+theorem shr_ladder_eq_vartime {a : List Nat} (ha : WF a) (hn0 : a ≠ []) (hn : 64 * a.length < TWO32)
+    {s : Nat} (hs : s < TWO32) :
+    overflowingShr a s = some (overflowingShrVartime a s) := overflowingShr_eq_vartime ha hn0 hn hs
+
+/-- T05.2c `Uint::shl` / `shl_vartime`: panic (`none`) exactly when `s ≥ BITS`, else `(x·2^s) mod 2^BITS`. -/
+theorem shl_spec {a : List Nat} (ha : WF a) (hn0 : a ≠ []) (hn : 64 * a.length < TWO32)
+    {s : Nat} (hs : s < TWO32) :
+    ushl a s = ushlVartime a s ∧
+    (64 * a.length ≤ s → ushl a s = none) ∧
+    (s < 64 * a.length → ∃ r, ushl a s = some r ∧ val r = (val a * 2 ^ s) % B ^ a.length ∧
+      r.length = a.length ∧ WF r) := by
+  have e : ushl a s = ushlVartime a s := by
+    unfold ushl ushlVartime; rw [overflowingShl_eq_vartime ha hn0 hn hs]; rfl
+  refine ⟨e, ?_, ?_⟩
+  · intro h
+    rw [e]; unfold ushlVartime
+    rw [overflowingShlVartime_overflow a h]; exact expect_none rfl
+  · intro h
+    have ⟨h1, h2, h3, h4⟩ := overflowingShlVartime_spec ha h
+    exact ⟨_, by rw [e]; exact expect_mk h1, h2, h3, h4⟩
+
+theorem shr_spec {a : List Nat} (ha : WF a) (hn0 : a ≠ []) (hn : 64 * a.length < TWO32)
+    {s : Nat} (hs : s < TWO32) :
+    ushr a s = ushrVartime a s ∧
+    (64 * a.length ≤ s → ushr a s = none) ∧
+    (s < 64 * a.length → ∃ r, ushr a s = some r ∧ val r = val a / 2 ^ s ∧
+      r.length = a.length ∧ WF r) := by
+  have e : ushr a s = ushrVartime a s := by
+    unfold ushr ushrVartime; rw [overflowingShr_eq_vartime ha hn0 hn hs]; rfl
+  refine ⟨e, ?_, ?_⟩
+  · intro h
+    rw [e]; unfold ushrVartime
+    rw [overflowingShrVartime_overflow a h]; exact expect_none rfl
+  · intro h
+    have ⟨h1, h2, h3, h4⟩ := overflowingShrVartime_spec ha h
+    exact ⟨_, by rw [e]; exact expect_mk h1, h2, h3, h4⟩
+
+/-- T05.2d the wrapping forms (ct and vartime) never panic and return `(x·2^s) mod 2^BITS`, which is 0
+    for `s ≥ BITS`. -/
+theorem wrapping_shl_spec {a : List Nat} (ha : WF a) (hn0 : a ≠ []) (hn : 64 * a.length < TWO32)
+    {s : Nat} (hs : s < TWO32) :
+    wrappingShlU a s = some (wrappingShlVartimeU a s) ∧
+    val (wrappingShlVartimeU a s) = (val a * 2 ^ s) % B ^ a.length ∧
+    (64 * a.length ≤ s → val (wrappingShlVartimeU a s) = 0) := by
+  have hv := shlV_val ha s
+  have hsel : wrappingShlVartimeU a s = (overflowingShlVartime a s).1 := by
+    unfold wrappingShlVartimeU unwrapOr
+    by_cases h : s < 64 * a.length
+    · rw [(overflowingShlVartime_spec ha h).1]
+      exact uselect_spec true (uzero_WF _) hv.2.2 (by rw [hv.2.1, uzero_length])
+    · rw [overflowingShlVartime_overflow a (Nat.not_lt.mp h)]
+      exact uselect_spec false (uzero_WF _) (uzero_WF _) rfl
+  refine ⟨?_, by rw [hsel]; exact hv.1, fun h => by rw [hsel, hv.1, shl_overflow_zero _ h]⟩
+  unfold wrappingShlU; rw [overflowingShl_eq_vartime ha hn0 hn hs]; rfl
+
+theorem wrapping_shr_spec {a : List Nat} (ha : WF a) (hn0 : a ≠ []) (hn : 64 * a.length < TWO32)
+    {s : Nat} (hs : s < TWO32) :
+    wrappingShrU a s = some (wrappingShrVartimeU a s) ∧
+    val (wrappingShrVartimeU a s) = val a / 2 ^ s ∧
+    (64 * a.length ≤ s → val (wrappingShrVartimeU a s) = 0) := by
+  have hv := shrV_val ha s
+  have hsel : wrappingShrVartimeU a s = (overflowingShrVartime a s).1 := by
+    unfold wrappingShrVartimeU unwrapOr
+    by_cases h : s < 64 * a.length
+    · rw [(overflowingShrVartime_spec ha h).1]
+      exact uselect_spec true (uzero_WF _) hv.2.2 (by rw [hv.2.1, uzero_length])
+    · rw [overflowingShrVartime_overflow a (Nat.not_lt.mp h)]
+      exact uselect_spec false (uzero_WF _) (uzero_WF _) rfl
+  refine ⟨?_, by rw [hsel]; exact hv.1, fun h => by rw [hsel, hv.1, shr_overflow_zero ha h]⟩
+  unfold wrappingShrU; rw [overflowingShr_eq_vartime ha hn0 hn hs]; rfl
+
+example : overflowingShl [1, 2, WMAX] 191 = some (overflowingShlVartime [1, 2, WMAX] 191) :=
+  shl_ladder_eq_vartime (WF_of_all (by decide)) (by simp) (by decide) (by decide)
+
+/-! ## T05.3 double-width shifts -/
+
+/-- T05.3a `overflowing_shl_vartime_wide((lo, hi), s)` for `0 < s < 2·BITS` (both branches, including
+    `BITS ≤ s < 2·BITS`): the pair is `((lo + 2^BITS·hi) · 2^s) mod 2^(2·BITS)`; none for `s ≥ 2·BITS`. -/
+theorem shl_wide_spec {lo hi : List Nat} (hlo : WF lo) (hhi : WF hi) (hl : hi.length = lo.length) (s : Nat) :
+    (2 * (64 * lo.length) ≤ s → shlVartimeWide lo hi s = some ((uzero lo.length, uzero lo.length), 0)) ∧
+    (0 < s → s < 2 * (64 * lo.length) →
+      ∃ rl rh, shlVartimeWide lo hi s = some ((rl, rh), WMAX) ∧
+        val rl + B ^ lo.length * val rh =
+          ((val lo + B ^ lo.length * val hi) * 2 ^ s) % (B ^ lo.length * B ^ lo.length) ∧
+        WF rl ∧ WF rh ∧ rl.length = lo.length ∧ rh.length = lo.length) :=
+  ⟨shlVartimeWide_overflow lo hi, fun h0 h => shlVartimeWide_spec hlo hhi hl h0 h⟩
+
+theorem shr_wide_spec {lo hi : List Nat} (hlo : WF lo) (hhi : WF hi) (hl : hi.length = lo.length) (s : Nat) :
+    (2 * (64 * lo.length) ≤ s → shrVartimeWide lo hi s = some ((uzero lo.length, uzero lo.length), 0)) ∧
+    (0 < s → s < 2 * (64 * lo.length) →
+      ∃ rl rh, shrVartimeWide lo hi s = some ((rl, rh), WMAX) ∧
+        val rl + B ^ lo.length * val rh = (val lo + B ^ lo.length * val hi) / 2 ^ s ∧
+        WF rl ∧ WF rh ∧ rl.length = lo.length ∧ rh.length = lo.length) :=
+  ⟨shrVartimeWide_overflow lo hi, fun h0 h => shrVartimeWide_spec hlo hhi hl h0 h⟩
+
+/-
+  FULL STATEMENT (unproved — it is FALSE of the code as written, finding C05-wide-shift-zero):
+    the two existential clauses above also hold for `s = 0` (result = the input pair).
+  Proved instead: the negation, the code panics for `s = 0` on every non-empty width.
+-/
+/-- T05.3n (negative) the wide shifts PANIC for `shift = 0`: the complementary shift by `BITS - 0`
+    is unwrapped with `expect`. Confirmed on the real crate (corpus/C05.txt). -/
+theorem wide_shift_zero_panics (lo hi : List Nat) (hn : lo ≠ []) (hl : hi.length = lo.length) :
+    shlVartimeWide lo hi 0 = none ∧ shrVartimeWide lo hi 0 = none :=
+  ⟨shlVartimeWide_zero lo hi hn, shrVartimeWide_zero lo hi hn hl⟩
+
+/-! ## T05.6 bitwise operators -/
+
+/-- T05.6 limb-wise `&`, `|`, `^` act on the value as the `Nat` bit operators; `!` is the complement
+    within the width. -/
+theorem bitand_spec {a b : List Nat} (ha : WF a) (hb : WF b) (h : a.length = b.length) :
+    val (ubitand a b) = val a &&& val b := (val_ubitand ha hb h).1
+theorem bitor_spec {a b : List Nat} (ha : WF a) (hb : WF b) (h : a.length = b.length) :
+    val (ubitor a b) = val a ||| val b := (val_ubitor ha hb h).1
+theorem bitxor_spec {a b : List Nat} (ha : WF a) (hb : WF b) (h : a.length = b.length) :
+    val (ubitxor a b) = val a ^^^ val b := (val_ubitxor ha hb h).1
+theorem not_spec {a : List Nat} (ha : WF a) : val (unot a) = B ^ a.length - 1 - val a := by
+  have := (val_unot ha).1; omega
+theorem bitand_limb_spec {a : List Nat} (ha : WF a) (l : Nat) :
+    val (ubitandLimb a l) = val a &&& val (List.replicate a.length (l % B)) := ubitandLimb_spec ha l
+/-- boxed operands of different precision: result has the larger precision, the shorter operand is
+    zero-extended. -/
+theorem boxed_bitops_spec {a b : List Nat} (ha : WF a) (hb : WF b) :
+    (val (mapLimbs (· &&& ·) a b) = val a &&& val b ∧ (mapLimbs (· &&& ·) a b).length = max a.length b.length) ∧
+    (val (mapLimbs (· ||| ·) a b) = val a ||| val b ∧ (mapLimbs (· ||| ·) a b).length = max a.length b.length) ∧
+    (val (mapLimbs (· ^^^ ·) a b) = val a ^^^ val b ∧ (mapLimbs (· ^^^ ·) a b).length = max a.length b.length) := by
+  have h1 := val_mapLimbs (f := (· &&& ·)) Nat.testBit_and (fun _ _ hx _ => and_lt_B hx) (by decide) ha hb
+  have h2 := val_mapLimbs (f := (· ||| ·)) Nat.testBit_or (fun _ _ hx hy => or_lt_B hx hy) (by decide) ha hb
+  have h3 := val_mapLimbs (f := (· ^^^ ·)) Nat.testBit_xor (fun _ _ hx hy => xor_lt_B hx hy) (by decide) ha hb
+  exact ⟨⟨h1.1, h1.2.2⟩, ⟨h2.1, h2.2.2⟩, ⟨h3.1, h3.2.2⟩⟩
+
+/-
+  FULL STATEMENT (unproved — FALSE of the code as written, finding C05-boxed-or-assign-truncates):
+    `val (orAssign a b) = val a ||| val b` for all `a b`.
+  Proved: it holds when `b` is not longer than `a`; and a concrete counterexample otherwise.
+-/
+/-- T05.6n (negative) `BoxedUint |= wider` drops the high limbs of the right-hand side. -/
+theorem or_assign_truncates : val (orAssign [15] [1, 1]) ≠ val [15] ||| val [1, 1] := by decide
 
 end CB.P05
